@@ -8,7 +8,8 @@ META = {'assumptions': ['os.path.getmtime / os.listdir / os.walk and the JSON/YA
                         'takes parsed file contents and integer mtimes (set by the harness with os.utime)']}
 
 FILES = [(None, None), (0, 'a.yaml'), (1, 'b.yaml'), (0, 'z.yaml')]
-CONTENTS = [{'p': 'role:r0'}, {'p': '!'}, {'q': '@', 'p': 'role:r1'}, {}, {'q': 'role:r0 or role:r1'}, {'d': '!'}]
+CONTENTS = [{'p': 'role:r0'}, {'oldp': 'role:r0 and role:r1'}, {'q': '@', 'p': 'role:r1'}, {}, {'q': 'role:r0 or role:r1'}, {'d': '!'},
+            {'oldp': '!', 'q': 'role:r1'}, {'p': '!'}]
 ROLES = ['r0', 'r1']
 NAMES = ['p', 'q', 'd', 'oldp', 'nope']
 REGSETS = [
@@ -86,7 +87,7 @@ def run(ctx, rep):
     try:
         hists = []
         L = ctx.bound(3, 4)
-        alpha = ops_alphabet(3, 3)
+        alpha = ops_alphabet(3, 3)      # contents 0..2: a new-name override, an old-name override, a two-rule file
         for n in range(0, L + 1):
             for h in itertools.product(alpha, repeat=n):
                 # skip histories without any file operation after the first position variety: keep all
